@@ -33,7 +33,7 @@ def project_text(agrid_rows, keep, header_prefix=None):
     return ''.join(ln + '\n' for ln in out)
 
 
-def one(ctx: Ctx, cs, pname=None, **over):
+def one(ctx: Ctx, cs, pname=None, derive=None, **over):
     import kernpy as kp
     doc, pname = make_doc(cs, pname, **over)
     x = doc.text(0)
@@ -43,8 +43,14 @@ def one(ctx: Ctx, cs, pname=None, **over):
     if exc is not None or e:
         ctx.mon('precondition_failed')
         return
+    if derive:
+        # a Document obtained through the API (result of a transposition / concat / clone): projection acts on it as on any other
+        from . import measures_common as MC
+        d = MC.derive_document(ctx, d, doc, x, cs, derive)
+        if d is None:
+            return
     ctx.cls(*sorted(doc.tags))
-    case = {'case_seed': cs, 'profile': pname, 'over': over, 'text': x}
+    case = {'case_seed': cs, 'profile': pname, 'over': over, 'text': x, 'derive': derive}
     n = len(doc.headers)
     types = sorted(set(doc.headers))
     known = set(kpx.T.HEADERS)
@@ -196,10 +202,12 @@ def run(ctx: Ctx):
             one(ctx, cs, min_spines=2, p_split=0.25, types=ALL_TYPES + ('**foo', '**silbe', '**foo'))
         else:
             one(ctx, cs, min_spines=2, p_split=0.25)
+    for k, cs in enumerate(cases(ctx, 'c06-derived', n // 8)):
+        one(ctx, cs, derive=['transposed', 'concat', 'transposed', 'clone'][k % 4], min_spines=2, p_split=0.2, p_rest=0.3)
     ctx.floors = {'projections': ('projected_exports', 1500), 'queries': ('spine_type_queries', 300)}
 
 
 def replay(ctx, w):
     case = w.get('case', w)
-    one(ctx, case['case_seed'], case.get('profile'), **case.get('over', {}))
+    one(ctx, case['case_seed'], case.get('profile'), derive=case.get('derive'), **case.get('over', {}))
     print(case.get('text', ''))
